@@ -7,7 +7,7 @@ git -C /repo show "$c" --format= > "$P"
 S=$(mktemp -d /tmp/vmut.XXXXXX); trap 'rm -rf "$S" "$P"' EXIT
 rsync -a --exclude .git --exclude example-output /repo/ "$S/"
 (cd "$S" && patch -R -p1 -s < "$P") || { echo "REVERT FAILED"; exit 9; }
-VERIF_REPO="$S" "$(dirname "$0")/../check" "$id" "$tier" > "$S/out.txt" 2>&1; rc=$?
+VERIF_OUT_DIR="$S/zz_verif_out" VERIF_REPO="$S" "$(dirname "$0")/../check" "$id" "$tier" > "$S/out.txt" 2>&1; rc=$?
 grep -E '^(RESULT|INCONCLUSIVE)' "$S/out.txt" | head -3
 grep -A2 '^VIOLATION' "$S/out.txt" | grep -v '^VIOLATION\|^--' | head -${SEED_LINES:-4} | cut -c1-300
 echo "revert $(git -C /repo log -1 --format=%s $c | cut -c1-60): check($tier) exit=$rc => $([ $rc = 1 ] && echo CAUGHT || echo MISSED)"
